@@ -339,11 +339,26 @@ R6_PATS = [
 
 
 def rewrite_be_bytes(text, log, where):
-    """R6: uN::from_be_bytes(X.try_into().unwrap()) -> verif_beN(X)  (stub requires X.len()==N/8)"""
+    """R6: uN::from_be_bytes(X.try_into().unwrap()) -> verif_beN(X)  (stub requires X.len()==N/8)
+    R6b: <[u8; N]>::try_from(X).unwrap() -> verif_arrN(X)  (X a slice; stub requires X.len()==N: the unwrap's panic condition)"""
     for pat, rep in R6_PATS:
         text, n = pat.subn(rep, text)
         for _ in range(n):
             log.append(("R6", where, rep.split("(")[0]))
+    while True:
+        m = re.search(r"<\[u8; (\d+)\]>::try_from\(", text)
+        if not m:
+            break
+        toks = [t for t in lex(text) if t.start >= m.end() - 1]
+        close = match_close(toks, 0)
+        rest = text[toks[close].end:]
+        m2 = re.match(r"\s*\.unwrap\(\)", rest)
+        if not m2:
+            # leave it for a subst / for Verus to reject
+            text = text[:m.start()] + "<[u8;  " + text[m.start() + 6:]
+            continue
+        text = text[:m.start()] + "verif_arr%s(" % m.group(1) + text[m.end():toks[close].end] + rest[m2.end():]
+        log.append(("R6b", where, "array try_from(slice).unwrap()"))
     return text
 
 
@@ -632,6 +647,60 @@ def desugar_map_collect(text, log, where):
                     % (recv, pat, body))
         text = text[:toks[r].start] + repl + text[toks[end].end:]
         log.append(("R17", where, "iter().%s(..).collect() over %s desugared into a loop" % (kind, recv)))
+
+
+def desugar_chunks_map_collect(text, log, where):
+    """R17g: `RECV.chunks_exact(N).map(|PAT| BODY).collect()` / `RECV.chunks(N)...` -> the loop it abbreviates over the chunk list
+    returned by the stub verif_chunks_exact(&RECV, N) / verif_chunks_of(&RECV, N) (contracts/inc/std_chunks.vinc: exact std semantics
+    of slice::chunks_exact / slice::chunks).  The closure body is kept verbatim and runs once per chunk, in order."""
+    while True:
+        toks = lex(text)
+        hit = None
+        for i in range(1, len(toks) - 10):
+            if toks[i].text in ("chunks_exact", "chunks") and toks[i - 1].text == "." and toks[i + 1].text == "(":
+                nclose = match_close(toks, i + 1)
+                if toks[nclose + 1].text != "." or toks[nclose + 2].text != "map" or toks[nclose + 3].text != "(" or toks[nclose + 4].text != "|":
+                    continue
+                mclose = match_close(toks, nclose + 3)
+                pe = nclose + 5
+                while toks[pe].text != "|":
+                    pe += 1
+                if mclose + 4 >= len(toks) or toks[mclose + 1].text != "." or toks[mclose + 2].text != "collect" \
+                        or toks[mclose + 3].text != "(" or toks[mclose + 4].text != ")":
+                    continue
+                # receiver: identifiers, '.', and balanced [..] index groups
+                r = i - 1
+                while r - 1 >= 0:
+                    pt = toks[r - 1]
+                    if pt.kind == "id" or pt.text == ".":
+                        r -= 1
+                    elif pt.text == "]":
+                        depth, k = 0, r - 1
+                        while k >= 0:
+                            if toks[k].text == "]":
+                                depth += 1
+                            elif toks[k].text == "[":
+                                depth -= 1
+                                if depth == 0:
+                                    break
+                            k -= 1
+                        r = k
+                    else:
+                        break
+                hit = (r, i, nclose, pe, mclose)
+                break
+        if hit is None:
+            return text
+        r, i, nclose, pe, mclose = hit
+        recv = re.sub(r"\s+", "", text[toks[r].start:toks[i - 1].start])
+        n = text[toks[i + 1].end:toks[nclose].start].strip()
+        pat = text[toks[nclose + 4].end:toks[pe].start].strip()
+        body = text[toks[pe].end:toks[mclose].start].strip()
+        fn = "verif_chunks_exact" if toks[i].text == "chunks_exact" else "verif_chunks_of"
+        repl = ("{ let mut verif_out = Vec::new(); let verif_chunks = %s(&%s, %s); for verif_cx in verif_chunks.iter() { let %s = *verif_cx; verif_out.push(%s); } verif_out }"
+                % (fn, recv, n, pat, body))
+        text = text[:toks[r].start] + repl + text[toks[mclose + 4].end:]
+        log.append(("R17g", where, "%s(%s).map(..).collect() over %s desugared into a loop" % (toks[i].text, n, recv)))
 
 
 def desugar_let_chains(text, log, where):
@@ -1159,6 +1228,7 @@ def process_fn(u, fnpath, text, log, origin, canary=None):
     text = rewrite_splice(text, log, fnpath)
     if settings.get("mapcollect") == "loop":
         text = desugar_map_collect(text, log, fnpath)
+        text = desugar_chunks_map_collect(text, log, fnpath)
         text = desugar_range_map_filter_collect(text, log, fnpath)
         text = desugar_map_fold(text, log, fnpath)
         text = desugar_any_find_map(text, log, fnpath)
